@@ -2,61 +2,95 @@
    correspondence run).  Nothing but statements closed by `exact`, each followed by
    Print Assumptions. *)
 From Coq Require Import ZArith List Bool Arith Permutation.
-Require Import SkV.C12.Model SkV.C12.Proofs.
+Require Import SkV.C12.Model SkV.C12.Own SkV.C12.Proofs SkV.C12.Bridge.
 Import ListNotations.
 
 (* ---- (i) ownership: "never modify the caller's data and never change the estimator" ---- *)
 
-(* an apply-type method (or a fit) whose program passes the aliasing analysis leaves EVERY buffer
+(* a method (apply-type, or a fit) whose program passes the aliasing analysis leaves EVERY buffer
    that existed before the call - the caller's argument, its index, any other object the caller
    holds - exactly as it was, for all stores, all written values, all branch outcomes, all loop
-   counts *)
-Theorem C12_apply_preserves_caller_buffers : forall self_ok p, is_safe self_ok p = true ->
+   counts, all local variables and views *)
+Theorem C12_apply_preserves_caller_buffers : forall self_ok m, is_safe self_ok m = true ->
   forall e st0 caller, e < length st0 -> caller < length st0 ->
-  forall i, i < length st0 -> i <> e -> get (fst (apply e p st0 caller)) i = get st0 i.
+  forall i, i < length st0 -> i <> e -> get (fst (apply e m st0 caller)) i = get st0 i.
 Proof. exact preserves_caller_buffers. Qed.
 Print Assumptions C12_apply_preserves_caller_buffers.
 
 (* apply-type methods: the estimator's state buffer is not changed either *)
-Theorem C12_apply_preserves_estimator_state : forall p, is_safe false p = true ->
+Theorem C12_apply_preserves_estimator_state : forall m, is_safe false m = true ->
   forall e st0 caller, e < length st0 -> caller < length st0 ->
-  get (fst (apply e p st0 caller)) e = get st0 e.
+  get (fst (apply e m st0 caller)) e = get st0 e.
 Proof. exact preserves_estimator_state. Qed.
 Print Assumptions C12_apply_preserves_estimator_state.
 
 (* the result is a new or existing buffer of a store that only grew *)
-Theorem C12_apply_allocates_only : forall self_ok p, is_safe self_ok p = true ->
+Theorem C12_apply_allocates_only : forall self_ok m, is_safe self_ok m = true ->
   forall e st0 caller, e < length st0 -> caller < length st0 ->
-  length st0 <= length (fst (apply e p st0 caller)) /\
-  snd (apply e p st0 caller) < length (fst (apply e p st0 caller)).
+  length st0 <= length (fst (apply e m st0 caller)) /\
+  snd (apply e m st0 caller) < length (fst (apply e m st0 caller)).
 Proof. exact apply_store_grows. Qed.
 Print Assumptions C12_apply_allocates_only.
 
+(* the result of an accepted apply-type method is a function of the CONTENTS of the estimator's
+   state and of the caller's data, and of nothing else in the store (not of other objects, not of
+   the buffer ids): this is what makes it repeatable, interleavable and what a pickled copy (equal
+   state contents in another store) must reproduce *)
+Theorem C12_apply_result_function_of_state_and_data : forall m, is_safe false m = true ->
+  forall e st caller e' st' caller',
+  e < length st -> caller < length st -> e <> caller ->
+  e' < length st' -> caller' < length st' ->
+  get st e = get st' e' -> get st caller = get st' caller' ->
+  get (fst (apply e m st caller)) (snd (apply e m st caller)) =
+  get (fst (apply e' m st' caller')) (snd (apply e' m st' caller')).
+Proof. exact apply_result_function_of_state_and_data. Qed.
+Print Assumptions C12_apply_result_function_of_state_and_data.
+
 (* "repeating the call, or calling other apply-type methods in between, returns the same result":
-   after ANY history of safe apply-type calls (any programs, on any of the caller's buffers) the
-   call returns the same contents as it did at the start *)
-Theorem C12_apply_same_result_after_any_history : forall p, is_safe false p = true ->
+   after ANY history of accepted apply-type calls (any programs, on any of the caller's buffers)
+   the call returns the same contents as it did at the start *)
+Theorem C12_apply_same_result_after_any_history : forall m, is_safe false m = true ->
   forall e st0 caller hs, e < length st0 -> caller < length st0 -> caller <> e ->
   valid_history e st0 hs ->
   let st := play e hs st0 in
-  get (fst (apply e p st caller)) (snd (apply e p st caller)) =
-  get (fst (apply e p st0 caller)) (snd (apply e p st0 caller)).
+  get (fst (apply e m st caller)) (snd (apply e m st caller)) =
+  get (fst (apply e m st0 caller)) (snd (apply e m st0 caller)).
 Proof. exact history_independent. Qed.
 Print Assumptions C12_apply_same_result_after_any_history.
 
-(* the shape HampelFilter.transform has now (copy first) passes the analysis, whatever it writes *)
-Theorem C12_hampel_copy_first_is_safe : forall copy h g isframe retbool ncols nwin,
-  is_safe false (hampel_now copy h g isframe retbool ncols nwin) = true.
-Proof. exact hampel_now_is_safe. Qed.
-Print Assumptions C12_hampel_copy_first_is_safe.
+(* a returned variable the analysis flags as new is a new object on every path *)
+Theorem C12_result_is_a_new_object : forall m, returns_fresh m = true ->
+  forall e st0 caller, e < length st0 -> caller < length st0 ->
+  length st0 <= snd (apply e m st0 caller).
+Proof. exact returns_fresh_sound. Qed.
+Print Assumptions C12_result_is_a_new_object.
 
-(* Imputer.transform passes exactly for the methods other than random-on-a-DataFrame and
-   forecaster (the two open findings, see Refuted.v) *)
-Theorem C12_imputer_safe_iff : forall h g fitg hasmv ncols m frame,
-  is_safe false (imputer h g fitg hasmv ncols m frame) = true <->
-  ~ (m = MRandom /\ frame = true) /\ m <> MForecaster.
-Proof. exact imputer_safe_iff. Qed.
-Print Assumptions C12_imputer_safe_iff.
+(* the programs REGENERATED from /repo's source on this run: Imputer.transform and
+   HampelFilter.transform (helpers inlined) are pure for all branch conditions, loop counts and
+   contents; every regenerated method (fit / update of Detrender, Deseasonalizer, ... included)
+   leaves the caller's buffers alone *)
+Theorem C12_imputer_transform_is_pure : forall cond fn cnt e st0 caller,
+  e < length st0 -> caller < length st0 ->
+  (forall i, i < length st0 ->
+     get (fst (apply e (imputer_transform cond fn cnt) st0 caller)) i = get st0 i) /\
+  length st0 <= snd (apply e (imputer_transform cond fn cnt) st0 caller).
+Proof. exact imputer_transform_is_pure. Qed.
+Print Assumptions C12_imputer_transform_is_pure.
+
+Theorem C12_hampel_transform_is_pure : forall cond fn cnt e st0 caller,
+  e < length st0 -> caller < length st0 ->
+  (forall i, i < length st0 ->
+     get (fst (apply e (hampelfilter_transform cond fn cnt) st0 caller)) i = get st0 i) /\
+  length st0 <= snd (apply e (hampelfilter_transform cond fn cnt) st0 caller).
+Proof. exact hampel_transform_is_pure. Qed.
+Print Assumptions C12_hampel_transform_is_pure.
+
+Theorem C12_generated_methods_preserve_caller_data : forall cond fn cnt k m so,
+  nth_error (gen_methods cond fn cnt) k = Some m -> nth_error gen_self_ok k = Some so ->
+  forall e st0 caller, e < length st0 -> caller < length st0 ->
+  forall i, i < length st0 -> i <> e -> get (fst (apply e m st0 caller)) i = get st0 i.
+Proof. exact generated_methods_preserve_caller_data. Qed.
+Print Assumptions C12_generated_methods_preserve_caller_data.
 
 (* ---- (ii) scheduling: "equal results whatever n_jobs is" ---- *)
 
@@ -156,13 +190,13 @@ Theorem C12_intervals_well_formed :
 Proof. exact intervals_well_formed. Qed.
 Print Assumptions C12_intervals_well_formed.
 
-(* the hypotheses are satisfiable by non-trivial instances: a safe Hampel-shaped program that
-   really writes (into its copy), a complete schedule with a repeat that is not the identity, a
+(* the hypotheses are satisfiable by non-trivial instances: an accepted copy-first program that
+   really writes (into its copy, through a view variable), a complete schedule with a repeat that is not the identity, a
    two-phase interleaving, a sampled pair of intervals *)
 Example C12_nonvacuous :
-  is_safe false ex_hampel = true /\
-  fst (apply 1 ex_hampel ex_store 0) = ex_store ++ [[1; 2; 3]%Z] /\
-  snd (apply 1 ex_hampel ex_store 0) = 3 /\
+  is_safe false ex_prog = true /\
+  fst (apply 1 ex_prog ex_store 0) = ex_store ++ [[1; 2; 3]%Z] /\
+  snd (apply 1 ex_prog ex_store 0) = 3 /\
   complete 3 [2; 0; 2; 1] /\
   parallel_map (pure_task (St := unit) (Z.mul 2)) [5; 6; 7]%Z tt [2; 0; 2; 1] = Some [10; 12; 14]%Z /\
   collect (snd (run_pool2 (Z.mul 2) [5; 6; 7]%Z
